@@ -28,6 +28,8 @@ def check(run: Run) -> None:
     run.rule("S5", "Symbolic wrappers take their dimension from collect_expression_and_dimension(expr)[1]")
     run.rule("S6", "Mul/Add/Pow/Derivative handlers combine child values and dimensions with the operator of the node")
     w = World(run.src)
+    from .c04 import _k5
+    _k5(run, w)  # the any-dimension predicate itself (shared with C04): exactly {0, +oo, -oo, NaN}, magnitude independent
     info = run_collector_rules(run, w, CE, "_split_numeric_and_symbolic")
     mod, h = info["mod"], info["handlers"]
     if any(k not in h for k in ("Mul", "Add", "Pow", "Derivative", "Min", "Max")):
